@@ -1391,11 +1391,17 @@ func checkC14(c *Check, p *Program) {
 	} else {
 		lp := innermostLoop(a.indBlock)
 		indPay := p.Field("knx/knxnet", "RoutingInd", "Payload")
-		min, max := pathCount(a.indBlock, func(in ssa.Instruction) bool { return staticCallTo(in, a.deliver) }, func(b *ssa.BasicBlock) bool { return lp != nil && b == lp.Header })
+		min, max := pathCount(a.indBlock, func(in ssa.Instruction) bool {
+			if !staticCallTo(in, a.deliver) {
+				return false
+			}
+			_, chansOK := deliverArgs(in.(*ssa.Call), a.inbound)
+			return chansOK
+		}, func(b *ssa.BasicBlock) bool { return lp != nil && b == lp.Header })
 		c.Decide(min == 1 && max == 1, "C14.Q6", FuncName(a.serve)+" delivers each indication once", p.Pos(a.indBlock.Instrs[0].Pos()), "one call of the deliver function on every path of the case", fmt.Sprintf("%d..%d deliveries per indication", min, max))
 		instrsOf(a.serve, func(in ssa.Instruction) {
 			if staticCallTo(in, a.deliver) {
-				args := callArgs(in.(*ssa.Call))
+				args, _ := deliverArgs(in.(*ssa.Call), a.inbound)
 				c.Decide(len(args) == 1 && isLoadOf(args[0], indPay) && factAssertPtr(factsAt(in.Block()), knxnetPath, "RoutingInd"), "C14.Q6", FuncName(a.serve)+" delivers msg.Payload", p.InstrPos(in), "payload of the received indication", "delivery outside the RoutingInd case or of another value")
 			}
 		})
@@ -1413,7 +1419,7 @@ func checkC14(c *Check, p *Program) {
 	// recovered by a deferred function that calls recover() itself (`defer recover()` recovers nothing)
 	nParked := 0
 	for _, op := range ix.opsOnField(a.inbound, "send", "sel-send") {
-		roots := cg.rootsOf(op.Fn)
+		roots := cg.rootsOfOp(op)
 		inCloser := len(roots) > 0
 		for _, r := range roots {
 			if !(r.Kind == "go" && r.Fn == a.serve) {
